@@ -3,6 +3,7 @@ import Tbx.Model.Hull
 import Tbx.Model.ZOrder
 import Tbx.Model.BBox
 import Tbx.Model.FloatShadow
+import Tbx.Model.Scaffold
 import Tbx.Spec.Geometry
 import Tbx.Spec.F64
 /-
@@ -11,13 +12,14 @@ Driver for C19 (geometric primitives).  The first op line of a case is its heade
   H  / p lat lon ...                  hull of the points
        F hull  lat,lon ...            raw output of monotone_chain (start vertex / orientation are free)
        D hullc lat,lon ...            canonical form (see `canonHull`)
-  Z  / p lat lon ...                  D z i <row>   row i of the comparison matrix, L/E/G per column
+  Z  / p lat lon ...                  F z i <row>   row i of the comparison matrix, L/E/G per column (which strict
+                                      total order it is, is free); D zeq i <row> where the answer is Equal (E/N)
   B  / p lat lon ... then in order  q lat lon | x lat lon lat lon | xi | s lat lon | c
        D box 0 minlat minlon maxlat maxlon valid=b     after from_coordinates (invalid() if no p line)
        D q k b                        contains
        D x k minlat minlon maxlat maxlon valid=b       after extend_with (x: box of two coordinates,
                                       xi: invalid box) / from_coordinate (s)
-       D c k lat lon                  center
+       F c k lat lon                  center (rounding is free)
   MD minlat minlon maxlat maxlon / q lat lon ...
        D mdbox minlat minlon maxlat maxlon
        F md k inside=b got=<bits> clamp=lat,lon dclamp=<bits> dc=<bits>,<bits>,<bits>,<bits>
@@ -27,7 +29,7 @@ Driver for C19 (geometric primitives).  The first op line of a case is its heade
        F tile k x= y= [lon1= lat1= lon2= lat2= tpx=a,b] plon= plat= blon= blat=
   SC / n lat lon pid ...
        D scids id ...   then per id:  F scring id wellformed=b lat,lon ... | D schull id lat,lon ... |
-       D scbox id minlat minlon maxlat maxlon
+       F scbox id minlat minlon maxlat maxlon   (the bbox member is not part of the property)
 
 Floating-point values travel as IEEE-754 bit patterns (decimal u64).  The judge reads them as exact
 rationals (`Tbx.F64`) and applies the tolerances documented in /repo (constants below); the `M` lines
@@ -147,7 +149,10 @@ def handleHull (c : Case) : CaseOut :=
         | some h =>
           -- model sanity (the proved clauses, re-checked on the concrete run)
           if hullSpecB pts h then
-            if hullSpecB pts model then .ok else .fail "model/spec mismatch: the Lean model's hull fails the Spec on this input"
+            -- the proved clauses, re-evaluated on the concrete run
+            if !hullSpecB pts model then .fail "model/spec mismatch: the Lean model's hull fails the Spec on this input"
+            else if monotoneChainI64 pts != some model then .fail "model: the i64 orientation test overflows on valid coordinates"
+            else .ok
           else .fail (hullWhy pts h)
   { model := mlines, verdict := verdict, stats := stats }
 
@@ -183,7 +188,8 @@ def handleZ (c : Case) : CaseOut := Id.run do
       row := row.push (ordChar (zorderCmp pts[i]! pts[j]!))
       let b := zBranch pts[i]! pts[j]!
       br := br.modify b (· + 1)
-    mlines := mlines.push s!"D z {i} {row}"
+    mlines := mlines.push s!"F z {i} {row}"
+    mlines := mlines.push s!"D zeq {i} {String.ofList (row.toList.map fun ch => if ch == 'E' then 'E' else 'N')}"
   let stats := [("nontrivial", bit (br[3]! + br[4]! + br[5]! > 0)), ("z_cases", "1"), ("z_points", toString n),
                 ("z_pairs", toString (n * n)), ("z_br_equal", toString br[0]!), ("z_br_lat_same", toString br[1]!),
                 ("z_br_lon_same", toString br[2]!), ("z_br_lat_msb", toString br[3]!), ("z_br_lon_msb", toString br[4]!),
@@ -195,40 +201,35 @@ def handleZ (c : Case) : CaseOut := Id.run do
   -- the implementation's matrix
   let rows : Array (Array Char) := (c.impl.toList.filterMap fun l =>
     match words l with
-    | ["D", "z", _, r] => some r.toList.toArray
+    | ["F", "z", _, r] => some r.toList.toArray
     | _ => none).toArray
   if rows.size != n || rows.any (·.size != n) then
     return { model := mlines, verdict := .fail s!"comparison matrix has the wrong shape ({rows.size} rows for {n} points)", stats := stats }
   let m (i j : Nat) : Char := (rows[i]!)[j]!
   let mut bad : Option String := none
-  -- the Spec: comparison of the interleaved keys
+  -- the property: the order laws, checked directly on the reported answers (which strict total order it is,
+  -- e.g. whether latitude or longitude is the more significant bit of a pair, is not prescribed; agreement
+  -- with the lat-major key of `zorder_key` is reported as the statistic z_key_agree and through the F lines)
   for i in [0:n] do
     if bad.isSome then break
+    if m i i != 'E' then bad := some s!"not irreflexive: cmp(a,a) = {m i i} for a = {ptS pts[i]!}"
+    if (rows[i]!).any (fun ch => ch != 'L' && ch != 'E' && ch != 'G') then bad := some "answer outside Less/Equal/Greater"
     for j in [0:n] do
-      let want := ordChar (zcmpSpec pts[i]! pts[j]!)
-      if m i j != want then
-        bad := some s!"zorder_cmp({ptS pts[i]!}; {ptS pts[j]!}) = {m i j}, the interleaved keys compare {want}"
-        break
-  -- the order laws, checked directly on the reported answers
-  if bad.isNone then
-    for i in [0:n] do
       if bad.isSome then break
-      if m i i != 'E' then bad := some s!"not irreflexive: cmp(a,a) = {m i i} for a = {ptS pts[i]!}"
-      for j in [0:n] do
-        if bad.isSome then break
-        if m i j != flipChar (m j i) then
-          bad := some s!"not antisymmetric: cmp(a,b) = {m i j} but cmp(b,a) = {m j i} for a = {ptS pts[i]!}, b = {ptS pts[j]!}"
-        else if (m i j == 'E') != (pts[i]! == pts[j]!) then
-          bad := some s!"not consistent with equality: cmp(a,b) = {m i j} for a = {ptS pts[i]!}, b = {ptS pts[j]!}"
-        else if m i j == 'L' then
-          for k in [0:n] do
-            if m j k == 'L' && m i k != 'L' then
-              bad := some s!"not transitive: a < b, b < c but cmp(a,c) = {m i k} for a = {ptS pts[i]!}, b = {ptS pts[j]!}, c = {ptS pts[k]!}"
-              break
+      if m i j != flipChar (m j i) then
+        bad := some s!"not antisymmetric: cmp(a,b) = {m i j} but cmp(b,a) = {m j i} for a = {ptS pts[i]!}, b = {ptS pts[j]!}"
+      else if (m i j == 'E') != (pts[i]! == pts[j]!) then
+        bad := some s!"not consistent with equality: cmp(a,b) = {m i j} for a = {ptS pts[i]!}, b = {ptS pts[j]!}"
+      else if m i j == 'L' then
+        for k in [0:n] do
+          if m j k == 'L' && m i k != 'L' then
+            bad := some s!"not transitive: a < b, b < c but cmp(a,c) = {m i k} for a = {ptS pts[i]!}, b = {ptS pts[j]!}, c = {ptS pts[k]!}"
+            break
+  let keyAgree := (List.range n).all fun i => (List.range n).all fun j => m i j == ordChar (zcmpSpec pts[i]! pts[j]!)
   let verdict : Verdict := match bad with
     | some w => .fail w
     | none => .ok
-  return { model := mlines, verdict := verdict, stats := stats }
+  return { model := mlines, verdict := verdict, stats := stats ++ [("z_key_agree", bit keyAgree)] }
 
 /-! ### bounding boxes -/
 
@@ -291,7 +292,7 @@ def handleB (c : Case) : CaseOut := Id.run do
       mlines := mlines.push s!"D x {k} {boxS b}"
     | ["c"] =>
       match boxCenter b with
-      | some ctr => mlines := mlines.push s!"D c {k} {ctr.lat} {ctr.lon}"
+      | some ctr => mlines := mlines.push s!"F c {k} {ctr.lat} {ctr.lon}"
       | none => modelNone := true
     | _ => pure ()
   let stats := [("nontrivial", bit (decide ((nIn > 0 ∧ nOut > 0) ∨ grew > 0))), ("bbox_cases", "1"), ("bbox_points", toString pts.length),
@@ -320,6 +321,7 @@ def handleB (c : Case) : CaseOut := Id.run do
     kk := kk + 1
     let obs := impl.findSome? fun ws => match ws with
       | "D" :: _ :: ks :: r => if ks == toString kk then some r else none
+      | "F" :: "c" :: ks :: r => if ks == toString kk then some r else none
       | _ => none
     let some r := obs
       | bad := some s!"op {kk} ({l}): no observation"
@@ -357,9 +359,9 @@ def handleB (c : Case) : CaseOut := Id.run do
       match r with
       | [a, b'] =>
         let ctr : Coord := ⟨parseInt! a, parseInt! b'⟩
-        -- a midpoint up to rounding toward the minimum corner
-        let okLat := decide (0 ≤ (cur.maxLat - ctr.lat) - (ctr.lat - cur.minLat) ∧ (cur.maxLat - ctr.lat) - (ctr.lat - cur.minLat) ≤ 1)
-        let okLon := decide (0 ≤ (cur.maxLon - ctr.lon) - (ctr.lon - cur.minLon) ∧ (cur.maxLon - ctr.lon) - (ctr.lon - cur.minLon) ≤ 1)
+        -- a midpoint up to rounding (either way)
+        let okLat := decide (-1 ≤ (cur.maxLat - ctr.lat) - (ctr.lat - cur.minLat) ∧ (cur.maxLat - ctr.lat) - (ctr.lat - cur.minLat) ≤ 1)
+        let okLon := decide (-1 ≤ (cur.maxLon - ctr.lon) - (ctr.lon - cur.minLon) ∧ (cur.maxLon - ctr.lon) - (ctr.lon - cur.minLon) ≤ 1)
         if !(okLat && okLon) then bad := some s!"center {ptS ctr} is not the midpoint of {boxS cur}"
       | _ => bad := some s!"op {kk}: unparsable center"
     | _ => pure ()
@@ -626,16 +628,6 @@ def handleT (c : Case) : CaseOut := Id.run do
 
 /-! ### scaffold -/
 
-structure SNode where
-  p : Coord
-  pid : Nat
-
-def sortNat (l : List Nat) : List Nat := l.mergeSort (fun a b => decide (a ≤ b))
-
-/-- model of scaffold's grouping: the distinct ids, and for each id its nodes in index order -/
-def cellIds (ns : List SNode) : List Nat := sortNat (ns.map (·.pid)).eraseDups
-def cellOf (ns : List SNode) (id : Nat) : List Coord := (ns.filter (·.pid == id)).map (·.p)
-
 def handleSC (c : Case) : CaseOut := Id.run do
   let ns : List SNode := c.ops.toList.filterMap fun l => match words l with
     | ["n", a, b, p] => some ⟨⟨parseInt! a, parseInt! b⟩, parseNat! p⟩
@@ -643,15 +635,12 @@ def handleSC (c : Case) : CaseOut := Id.run do
   let ids := cellIds ns
   let mut mlines : Array String := #[withBody "D scids" (" ".intercalate (ids.map toString))]
   let mut big := 0
-  for id in ids do
-    let cell := cellOf ns id
+  for f in scaffoldFeatures ns do
+    let cell := cellOf ns f.id
     if cell.length > 3 then big := big + 1
-    let hull := monotoneChain cell
-    let ring := hull ++ hull.take 1
-    let bx := boxFromCoordinates hull
-    mlines := mlines.push (withBody s!"F scring {id} wellformed=1" (ptsS ring))
-    mlines := mlines.push (withBody s!"D schull {id}" (ptsS (canonHull cell.length hull)))
-    mlines := mlines.push s!"D scbox {id} {bx.minLat} {bx.minLon} {bx.maxLat} {bx.maxLon}"
+    mlines := mlines.push (withBody s!"F scring {f.id} wellformed=1" (ptsS f.ring))
+    mlines := mlines.push (withBody s!"D schull {f.id}" (ptsS (canonHull cell.length f.ring.dropLast)))
+    mlines := mlines.push s!"F scbox {f.id} {f.box.minLat} {f.box.minLon} {f.box.maxLat} {f.box.maxLon}"
   let stats := [("nontrivial", bit (decide (ids.length ≥ 2 ∧ big ≥ 1))), ("scaffold_cases", "1"), ("scaffold_nodes", toString ns.length),
                 ("scaffold_cells", toString ids.length), ("scaffold_cells_over_3", toString big)]
   if c.impl.any (· == "D NOBIN") then return { model := mlines, verdict := .skip "scaffold binary not available (TBX_REPO_BIN_DIR)", stats := stats }
